@@ -553,6 +553,12 @@ func (s *sided) operatorLicenseIssues(pred string) []sideIssue {
 		} else if anyTrue {
 			licensed = true // type not resolvable from the residual: some operand type was licensed on this path
 		}
+		// an operand whose declared type is the empty struct literal: == is trivially structural
+		if id, ok := unparen(be.X).(*ast.Ident); ok {
+			if st, ok := s.ptyp[id.Name].(*ast.StructType); ok && (st.Fields == nil || len(st.Fields.List) == 0) {
+				licensed = true
+			}
+		}
 		if !licensed {
 			out = append(out, sideIssue{be, fmt.Sprintf("compares %s with `%s` although %s was not established for the operands' type on this path: for types holding pointers, slices or maps the operator compares identity (or does not compile) instead of structure", s.rs.src(be.X), be.Op, pred), "operator-unlicensed", ""})
 		}
